@@ -159,6 +159,39 @@ def run(prog, world, sem, rep):
                 if not (base.op == "param" and base.info[1] == 2):
                     okc = False
                     why.append("the plan is not collected from a walk over the validator list (%s)" % show(base, 3))
+                # conservation without a loop: the entry is capped by what is still unplaced, and what is still unplaced is
+                # lowered by exactly the entry (a captured running remainder `left`: entry = min(.., left); left = left - entry)
+                conserving = False
+                for nm, mc in pipeline(world, c.args[0])[0]:
+                    if nm != "map" or len(mc.args) < 2 or mc.args[1].op != "closure":
+                        continue
+                    cb = prog.bodies.get(mc.args[1].info)
+                    if cb is None:
+                        continue
+                    cbe = world.be(cb)
+                    rets = value_payloads(world, world.ret_expr(cb))
+                    for blk in cb.blocks:
+                        if blk.cleanup or blk.idx not in cbe.cfg.live:
+                            continue
+                        for i, st in enumerate(blk.stmts):
+                            if st.kind != "assign" or st.j.get("pl", {}).get("p") != [["*"]]:
+                                continue
+                            tgt = world.ident(cbe.ev_lp(blk.idx, i, st.j["pl"]["l"], ()), expand_ws=False)
+                            if tgt.op != "upvar":
+                                continue
+                            nv = world.ident(cbe.ev_rvalue(blk.idx, i, st.rv), expand_ws=False)
+                            if nv.op == "proj":
+                                nv = world.ident(nv.args[0], expand_ws=False)
+                            aa = arith_args(nv, "Sub")
+                            if aa is None or world.ident(aa[0], expand_ws=False) != tgt:
+                                continue
+                            ent = world.ident(aa[1], expand_ws=False)
+                            capped = ent.op == "call" and ent.info.endswith("::min") and any(world.ident(x, expand_ws=False) == tgt for x in ent.args)
+                            if capped and rets and all(r == ent for r in rets):
+                                conserving = True
+                if not conserving:
+                    okc = False
+                    why.append("the entries are not min(.., amount still unplaced) with the unplaced amount lowered by each entry: the plan need not add up to the amount")
             if cols:
                 rep.ob("C02.f", "%s distributes until nothing is left" % pname, okc and (not used or pname != "calculate_delegations"),
                        "; ".join(why) if why else "no loop: the plan is collected from a walk over every validator (no dropping adaptor)", where(pv.body), key="C02.f | %s" % pname)
@@ -343,6 +376,21 @@ def no_entry_skipped(prog, world, sem, v, bb, pos):
     if ee is None:
         return ["the message is not built inside a loop"]
     return ["early exit at line %d" % l for (_, _, l) in ee]
+
+
+def value_payloads(world, e):
+    """the values a closure returns: Ok / Some payloads and plain alternatives (error residuals dropped)"""
+    e = world.ident(e, expand_ws=False)
+    out = []
+    for a in (e.args if e.op == "phi" else (e,)):
+        a = world.ident(a, expand_ws=False)
+        if a.op == "call" and a.info.endswith("from_residual"):
+            continue
+        if a.op == "adt" and a.info[1] in ("Ok", "Some") and a.args:
+            out.append(world.ident(a.args[0], expand_ws=False))
+        else:
+            out.append(a)
+    return out
 
 
 PLANNER = "common::calculate_undelegations"
